@@ -9,22 +9,28 @@
 
     Quantification: every old file A (any chunk table, any bytes, also damaged; or none),
     every new file B that is valid ([wf_new]: every chunk has its stored length and passes
-    validate_chunk, the data digest is the overall checksum of the data section), every
+    validate_chunk - for a zero-length chunk: its index digest is all zeros, which is what
+    the library writes for its only zero-length entry, the empty dictionary -, the data
+    digest is the overall checksum of the data section), every
     initial target ([wf_target]: any bytes in every extent, any header region, truncated
     anywhere, over-long), every server range limit (0 = no range support). *)
 From ZV Require Import Base.Bytes Gen.GenConsts Dl.Update Dl.UpdateProofs.
 Local Open Scope N_scope.
 
-(** T4.1 the procedure terminates (within [loop_fuel] = chunks + back-off table length + 1
-    iterations, never reading outside the back-off table) with exit code 0, the target's
-    header region = B's header, every extent = B's stored bytes, nothing behind B's end,
-    all chunks flagged valid, whole-data validation passing — or two different byte strings
-    with the same chunk checksum exist. *)
+(** T4.1 the procedure ends within [loop_fuel] = chunks + back-off table length + 1
+    iterations and never reads outside the back-off table ([OutOfFuel] / [TableOOB] do not
+    occur): regularly ([Done]) - or, only if two different byte strings with the same chunk
+    checksum exist, in [EmptyRange] (see Dl/Update.v: the validity scan invalidated all
+    chunks because only the data digest failed, which leaves the zero-length dictionary
+    entry "missing" with nothing to request; the code then sends an empty Range value).
+    Unless such a collision exists it ends with exit code 0, the target's header region =
+    B's header, every extent = B's stored bytes, nothing behind B's end, all chunks
+    flagged valid and whole-data validation passing. *)
 Theorem C04_update_reconstructs_B :
   forall (Hc Hf : bytes -> bytes) (A : option oldfile) (B : newfile) (srv_limit : N) (T : target),
   wf_new Hc Hf B (t_slots T) -> wf_target T ->
   let o := update Hc Hf A B srv_limit T in
-  (exists e, o_status o = Done e) /\
+  ((exists e, o_status o = Done e) \/ (o_status o = EmptyRange /\ collision Hc)) /\
   (collision Hc \/
    (o_status o = Done 0 /\
     t_hdr (o_target o) = b_hdr B /\ t_extra (o_target o) = [] /\
@@ -105,10 +111,9 @@ Definition exA : oldfile := [(dict0, []); (ck [4;5], [4;5])].
 Example C04_ex_wf : wf_new toyH toyH exB (t_slots exT) /\ wf_target exT.
 Proof.
   split.
-  - split; [|split].
+  - split.
     + repeat constructor.
     + intros _. vm_compute. reflexivity.
-    + intros _ _. reflexivity.
   - unfold wf_target, fits. repeat constructor; vm_compute; discriminate.
 Qed.
 
@@ -154,6 +159,16 @@ Example C04_ex_collision_accepted :
   let T := mkT [] (mkslots [(dict0, [], []); (ck [1;2;3], [1;2;3], [3;2;1])]) [] in
   let o := update toyH toyH None (mkB (repeat 7 100) 23 false (toyH [1;2;3])) 1 T in
   o_status o = Done 0 /\ map s_cur (t_slots (o_target o)) = [[]; [3;2;1]].
+Proof. vm_compute. repeat split; reflexivity. Qed.
+
+(** outside [wf_new]: a zero-length chunk whose index digest is not all zeros (no writer
+    produces it) can never become valid; the model shows what the loop does then: after
+    the real chunks have been fetched it computes an empty range ([EmptyRange]) *)
+Example C04_ex_invalid_B_empty_range :
+  let T := mkT [] (mkslots [(dict0, [], []); (ck [1;2;3], [1;2;3], []); (mkChunk [9] 0 0, [], [])]) [] in
+  let o := update toyH toyH None (mkB (repeat 7 100) 23 false (toyH [1;2;3])) 1000 T in
+  o_status o = EmptyRange /\ o_events o = [Served [1]%nat 1] /\
+  map s_flag (t_slots (o_target o)) = [Valid; Valid; Missing].
 Proof. vm_compute. repeat split; reflexivity. Qed.
 
 (** D33: lead 23 (SHA-512/128), header 99 bytes: the old code re-read from offset 23 *)
